@@ -180,6 +180,13 @@ func (s *sessionMgr) add(nodeName string, id string) (cleanStart bool, nextID ui
 	return
 }
 
+// setNextEventID records the id of the next event expected from the peer. It is read by add under the same lock.
+func (s *sessionMgr) setNextEventID(sess *session, id uint64) {
+	s.Lock()
+	defer s.Unlock()
+	sess.nextEventID = id
+}
+
 func (s *sessionMgr) del(nodeName string) {
 	s.Lock()
 	defer s.Unlock()
@@ -507,7 +514,7 @@ func (f *Federation) EventStream(stream Federation_EventStreamServer) (err error
 				if ce := log.Check(zapcore.DebugLevel, "event ack sent"); ce != nil {
 					ce.Write(zap.Uint64("id", ack.EventId))
 				}
-				sess.nextEventID = ack.EventId + 1
+				f.sessionMgr.setNextEventID(sess, ack.EventId+1)
 			}
 		}
 	}()
